@@ -20,7 +20,8 @@ RULE = ('full product of (configurable shape x list kind) x parameter name x sel
 ASSUMPTIONS = ['acceptance rule restated from the property', 'exception class on rejection is not prescribed']
 WITNESSES = ['accepted_and_injected', 'unknown_param_rejected', 'denylisted_rejected', 'not_allowlisted_rejected',
              'unknown_configurable_rejected', 'method_without_class_rejected', 'method_with_class_accepted',
-             'varkw_accepts_any_name', 'hook_path_rejected_unlocked', 'rejected_left_config_unchanged']
+             'varkw_accepts_any_name', 'hook_path_rejected_unlocked', 'rejected_left_config_unchanged', 'dynamic_registered_accepts',
+             'dynamic_registered_rejects']
 
 REC = []
 TARGETS = {}
@@ -75,6 +76,35 @@ def setup():
   gin.register(Km)
   TARGETS['Km.meth'] = dict(call=lambda: gin.get_configurable(Km)().meth(), sig=['a', 'b'], varkw=False,
                             lists={'denylist': ['b']})
+  # a module used through dynamic registration (classes partly registered statically with lists)
+  import atexit, os, shutil, sys, tempfile  # pylint: disable=import-outside-toplevel,multiple-imports
+  d = tempfile.mkdtemp(prefix='c11_')
+  with open(os.path.join(d, 'c11dyn.py'), 'w') as fh:
+    fh.write('''import gin
+
+@gin.register(denylist=['secret'])
+class Widget:
+  def __init__(self, colour='red', secret='s3'):
+    self.colour, self.secret = colour, secret
+  def render(self, size=1):
+    return size
+
+@gin.register(allowlist=['colour'])
+class Gadget:
+  def __init__(self, colour='red', hidden='h'):
+    self.colour, self.hidden = colour, hidden
+  def draw(self, w=1):
+    return w
+
+class Plain:
+  def __init__(self, a=1):
+    self.a = a
+  def meth(self, b=2):
+    return b
+''')
+  sys.path.insert(0, d)
+  atexit.register(lambda: shutil.rmtree(d, ignore_errors=True))
+  import c11dyn  # pylint: disable=import-outside-toplevel,unused-import
 
 
 PARAMS = ['a', 'b', 'nope', 'zz', '_private', 'A']
@@ -193,7 +223,70 @@ def run_case(case, res):
     res.w('hook_path_rejected_unlocked')
 
 
+DYN_HEAD = 'from __gin__ import dynamic_registration\nimport c11dyn\n'
+DYN = {
+    # first parse (dynamic registration) -> [(spelling, param, must be accepted?, why)]
+    'plain_method': ('c11dyn.Plain.meth.b = 5', [
+        ('meth', 'b', False, 'method_without_class'), ('Plain.meth', 'b', True, 'ok'), ('c11dyn.Plain.meth', 'b', True, 'ok'),
+        ('Plain.meth', 'nope', False, 'unknown_param'), ('Plain', 'a', True, 'ok'), ('Plain', 'b', False, 'unknown_param')]),
+    'denylisted_class_reregistered': ('c11dyn.Widget.render.size = 3', [
+        ('Widget', 'secret', False, 'denylisted'), ('c11dyn.Widget', 'secret', False, 'denylisted'),
+        ('Widget', 'colour', True, 'ok'), ('render', 'size', False, 'method_without_class'),
+        ('Widget.render', 'size', True, 'ok')]),
+    'allowlisted_class_reregistered': ('c11dyn.Gadget.draw.w = 2', [
+        ('Gadget', 'hidden', False, 'not_allowlisted'), ('Gadget', 'colour', True, 'ok'),
+        ('draw', 'w', False, 'method_without_class'), ('c11dyn.Gadget.draw', 'w', True, 'ok')]),
+    'class_reference_reregistered': ('c11dyn.Plain.a = @c11dyn.Widget\nc11dyn.Widget.render.size = 1', [
+        ('Widget', 'secret', False, 'denylisted'), ('Widget', 'colour', True, 'ok')]),
+}
+
+
+def dyn_cases():
+  for name, (text, attempts) in DYN.items():
+    for i in range(len(attempts)):
+      for scope in SCOPES:
+        for path in PATHS:
+          yield ['dyn', name, i, scope, path]
+
+
+def run_dyn_case(case, res):
+  _, name, i, scope, path = case
+  text, attempts = DYN[name]
+  spelling, param, ok, why = attempts[i]
+  harness.hard_reset()
+  gin.parse_config("c11.pre_fn.x = 'pre'\n")
+  gin.parse_config(DYN_HEAD + text + '\n')
+  res.case(tuple(case), True)
+  # (config_str is not usable here: it would try to import the probes' synthetic module 'c11'; the canonical
+  #  internal state is compared instead)
+  before = (harness.internal_state(), gin.config_is_locked())
+  try:
+    attempt(path, scope, spelling, param, 'VAL')
+    out = 'accepted'
+  except Exception as e:  # pylint: disable=broad-except
+    out = 'rejected:' + type(e).__name__
+  res.outcome('dyn:%s:%s' % (why, out.split(':')[0]))
+  if ok:
+    if out != 'accepted':
+      res.violation('valid_binding_rejected', 'case %r: %s.%s after dynamic registration was %s' %
+                    (case, spelling, param, out), case)
+    else:
+      res.w('dynamic_registered_accepts')
+    return
+  if out == 'accepted':
+    res.violation('invalid_binding_accepted:' + why, 'case %r: after the dynamic-registration parse %r, binding %s.%s '
+                  '(%s) was accepted' % (case, text, spelling, param, why), case)
+    return
+  if path.startswith('hook'):
+    cfg._FINALIZE_HOOKS.pop()   # the hook was installed by this harness, not by the rejected binding
+  if (harness.internal_state(), gin.config_is_locked()) != before:
+    res.violation('rejected_binding_changed_state', 'case %r: rejected (%s) but the configuration changed' % (case, out), case)
+    return
+  res.w('dynamic_registered_rejects')
+
+
 def gen(tier):
+  yield from dyn_cases()
   for tname in list(TARGETS) + [None]:
     sps = spellings(tname) if tname else ['c11.nosuch', 'nosuch', 'c11.fx_none.a']
     for sp, param, scope, path in itertools.product(sps, PARAMS, SCOPES, PATHS):
@@ -212,7 +305,7 @@ def run_shard(i, tier):
   for n, c in enumerate(gen(tier)):
     if n % NSH != i:
       continue
-    run_case(c, res)
+    (run_dyn_case if c[0] == 'dyn' else run_case)(c, res)
     if n % 701 == i:
       res.sample({'case': c})
   harness.hard_reset()
@@ -221,6 +314,6 @@ def run_shard(i, tier):
 
 def replay(case):
   res = core.Result()
-  run_case(case, res)
+  (run_dyn_case if case[0] == 'dyn' else run_case)(case, res)
   harness.hard_reset()
   return res
